@@ -68,13 +68,15 @@ Section Total.
   Qed.
 
   Lemma scalar_from_be_hex_guarded rest :
-    (len rest <? 64) || negb (forallb is_hexb (firstn 64 rest)) = false ->
+    negb (len rest =? 64) || negb (forallb is_hexb rest) = false ->
     scalar_from_be_hex rest <> Panic.
   Proof.
     intros G. apply orb_false_iff in G. destruct G as [G1 G2].
-    apply negb_false_iff in G2. unfold scalar_from_be_hex. rewrite G1.
-    apply Z.ltb_ge in G1. unfold len in G1.
-    destruct (hex_decode_all_hex 32 (firstn 64 rest)) as [b Hb]; [rewrite firstn_length; lia|exact G2|].
+    apply negb_false_iff in G1, G2. apply Z.eqb_eq in G1. unfold len in G1.
+    assert (HL : length rest = 64%nat) by lia.
+    unfold scalar_from_be_hex, len. rewrite HL. cbn [Z.of_nat Z.ltb Z.compare Pos.compare Pos.compare_cont].
+    rewrite <- HL, firstn_all.
+    destruct (hex_decode_all_hex 32 rest) as [b Hb]; [exact HL|exact G2|].
     rewrite Hb. apply of_option_np.
   Qed.
 
@@ -85,7 +87,7 @@ Section Total.
     destruct (list_eqb (firstn 4 s) pfx_ut8); [discriminate|].
     destruct (list_eqb (firstn 4 s) pfx_num); [destruct (parse_isize (skipn 4 s)); discriminate|].
     destruct (list_eqb (firstn 4 s) pfx_scl).
-    { destruct ((len (skipn 4 s) <? 64) || negb (forallb is_hexb (firstn 64 (skipn 4 s)))) eqn:G; [discriminate|].
+    { destruct (negb (len (skipn 4 s) =? 64) || negb (forallb is_hexb (skipn 4 s))) eqn:G; [discriminate|].
       apply rmap_np. apply scalar_from_be_hex_guarded. exact G. }
     destruct (list_eqb (firstn 4 s) pfx_rev); [discriminate|].
     destruct (list_eqb (firstn 4 s) pfx_enm); [|discriminate].
